@@ -37,7 +37,7 @@ def main():
             continue
         seen.add(key)
         c.report({"kind": f["kind"], "family": fam, "sig": f["sig"], "what": f["what"] + f" [{f['sig']}]", "text": f["text"], "layout": f["layout"], "detail": f["detail"]})
-    gr = run_tlc("gramrefine", "GramRefine", "GramRefine.cfg" if c.quick else "GramRefine_thorough.cfg", workers=4, timeout=6000, xss="1g", xmx="12g",
+    gr = run_tlc("gramrefine", "GramRefine", "GramRefine.cfg" if c.quick else "GramRefine_thorough.cfg", workers=8, timeout=6000, xss="1g", xmx="12g",
                  lib=["grammar", "lexer", "pgrammar", "events"], cache_key="v1", keep_tags=set())
     if not gr.ok and c.violations:
         # the real parser already shows a violation (reported below); the design-level failure is most likely the same defect transcribed
